@@ -82,6 +82,12 @@ func init() {
 			return nil
 		}
 	}
+	// RealEnv(name): from now on (this path) the real body of the named environment
+	// function runs instead of its harness model.
+	reg(rtPkg+".RealEnv", func(fr *frame, args []value) value {
+		fr.i.path.noStub[args[0].(string)] = true
+		return nil
+	})
 	reg(rtPkg+".Protect", protect(true))
 	reg(rtPkg+".Unprotect", protect(false))
 	// ProtectNew(on bool): lazy objects created from now on are write-protected.
